@@ -275,6 +275,7 @@ class Property(Entity):
         vtype = self._check_new_value_types(vals)
         if vtype == DataType.String:
             vals = [ensure_text(v) for v in vals]  # py2compat
+            self._check_text(vals)
         # convert first: a value that cannot be stored must not leave a resized dataset behind
         data = np.array(vals, dtype=vtype)
         self._h5dataset.shape = np.shape(vals)
@@ -286,6 +287,8 @@ class Property(Entity):
         Suitable when new data is nested or original data is long.
         """
         vtype = self._check_new_value_types(data)
+        if vtype == DataType.String:
+            self._check_text(data)
 
         arr = np.array(data, dtype=vtype).flatten('C')
         dataset = self._h5dataset
@@ -293,6 +296,13 @@ class Property(Entity):
         dlen = len(arr)
         dataset.shape = (src_len + dlen,)
         dataset.write_data(arr, slc=np.s_[src_len: src_len + dlen])
+
+    @staticmethod
+    def _check_text(values):
+        # HDF5 strings cannot hold a NUL: refuse before the dataset is resized
+        for val in values:
+            if isinstance(val, str) and "\x00" in val:
+                raise ValueError("Text values must not contain NUL characters")
 
     def _check_new_value_types(self, data):
         if isinstance(data, (Sequence, Iterable)) and not isinstance(data, str):
